@@ -442,6 +442,47 @@ def r12(ctx, rep):
               file=f["file"], line=site["l"], fn=f["path"])
 
 
+def r13(ctx, rep):
+    rep.rule("C07.R13", "no window function or aggregate is nested in another; a CASE never loses all its WHEN branches", floor=3)
+    syn = ctx.syn
+    # (a) get_requirements: what a window function / aggregate may inline must stay below window functions
+    en = syn.adt("Complexity", crate="prqlc")
+    order = tables.enum_variants(en)          # declaration order = derive(PartialOrd) order
+    rep.check(order == ["Plain", "NonGroup", "Windowed", "Aggregation"], "complexity:order", f"Complexity is compared by declaration order; expected Plain < NonGroup < Windowed < Aggregation, found {order}", file=en["file"], line=en["l"])
+    f = syn.fn("anchor::get_requirements", crate="prqlc")
+    m = None
+    for mm in matches_of(f["body"]):
+        if "infer_complexity(compute)" in show(mm["e"]):
+            m = mm
+    if m is None:
+        raise AnchorMissing("get_requirements: match infer_complexity(compute)")
+    rows = {}
+    for arm in m["arms"]:
+        for alt in pat_alts(arm["pat"]):
+            h = pat_head(alt)
+            rows[last_seg(h) if isinstance(h, str) else str(h)] = last_seg(show(arm["body"]))
+    for mine in ("Windowed", "Aggregation"):
+        allowed = rows.get(mine, rows.get("_"))
+        ok = allowed in order and order.index(allowed) < order.index("Windowed")
+        rep.check(ok, f"complexity:inputs-of:{mine}", f"a compute of complexity {mine} may inline inputs up to `{allowed}`: SQL does not allow a window function or an aggregate inside the argument of "
+                  f"another (`SUM(RANK() OVER ())`), so the limit must be below Windowed", file=f["file"], line=m["l"], fn=f["path"])
+    # (b) static_eval_case: the list that is tested for "only a literal-true branch is left" is the list that is emitted
+    c = syn.fn("static_eval::static_eval_case", crate="prqlc")
+    emitted = None
+    for n in walk(c["body"]):
+        if n.get("k") == "call" and show(n["f"]).endswith("ExprKind::Case") and n["a"]:
+            emitted = show(n["a"][0])
+    tested = []
+    for n in walk(c["body"]):
+        if n.get("k") == "if" and n["c"].get("k") == "bin" and n["c"]["op"] == "==" and show(n["c"]["lhs"]).endswith(".len()") and lit_val(n["c"]["rhs"]) == 1:
+            if any(r.get("k") == "return" and ".value" in show(r.get("e"), maxdepth=8) for r in walk(n["t"])):
+                tested.append(show(n["c"]["lhs"])[:-len(".len()")])
+    empt = [show(n["c"], maxdepth=6) for n in walk(c["body"]) if n.get("k") == "if" and ".is_empty()" in show(n["c"], maxdepth=6)]
+    rep.check(emitted is not None and tested == [emitted], "case:lone-default", f"the CASE that is emitted is `{emitted}`; the simplification `a single literal-true branch is just its value` is applied to {tested}: "
+              "it must test the emitted list after constant-false branches were dropped, otherwise `case [false => 0, true => x]` reaches SQL as `CASE ELSE x END`", file=c["file"], line=c["l"], fn=c["path"])
+    rep.check(emitted is not None and f"{emitted}.is_empty()" in empt, "case:empty", f"an emitted CASE without branches must be replaced (NULL); `{emitted}.is_empty()` is not tested", file=c["file"], line=c["l"], fn=c["path"])
+
+
 def run(ctx, rep):
-    for r in (r1, r2, r3, r4, r5, r6, r7, r8, r9, r10, r11, r12):
+    for r in (r1, r2, r3, r4, r5, r6, r7, r8, r9, r10, r11, r12, r13):
         rep.guard(r, ctx)
